@@ -125,6 +125,15 @@ func c07SegFromParams(p map[string]int) (*c07Seg, error) {
 // direct family re-execute). region 0: XOR mask over the header+CRC24 bits; region 1: up to two
 // single-bit flips or one burst over payload+CRC32.
 func c07Direct(r *Run) {
+	// the decoder runs in a task of its own: a checksum or decompression step that hands work to a
+	// goroutine must be schedulable
+	r.Go("direct", func() { c07DirectBody(r) })
+	if !r.Drive() {
+		r.Violate("C07", "liveness", "step-budget", "decoding one altered segment did not finish")
+	}
+}
+
+func c07DirectBody(r *Run) {
 	const P = "C07"
 	p := r.Spec.Params
 	seg, err := c07SegFromParams(p)
@@ -301,6 +310,13 @@ func c07Enumerate(w *Worker) {
 		w.Exec(RunSpec{Scenario: "direct", Index: 0, Params: p})
 	}
 	count := func(key string, n int) { w.Out.Counters[key] += n }
+	// large payloads first: one syndrome scan per shard and size (see c07scan.go)
+	for k, size := range c07ScanSizes(w) {
+		if w.expired() {
+			return
+		}
+		c07PayloadScan(w, (w.Job.Shard+k)&1, size, 2, int(Mix(w.Job.Seed, "C07/scanpayload", size)>>1))
+	}
 	for _, lz4On := range []int{0, 1} {
 		for hv := 0; hv < headerValues; hv++ {
 			if w.expired() {
